@@ -178,6 +178,21 @@ class Interp:
     # -- calling -----------------------------------------------------------------------------------------------------------
     def call_function(self, fn: FuncInfo, args: List[Any], kwargs: Dict[str, Any], self_val: Any = None,
                       closure: Optional[Dict[str, Any]] = None, depth: int = 0) -> Any:
+        # the number of interpreted calls that are live (whatever `depth` the caller passed on): interpreted code that recurses without
+        # end - the rule's scenario made it so, or the code under analysis does - is undecided, never a crash of the checker
+        live = getattr(self, '_live_calls', 0)
+        if live > 120:
+            raise Undecided('interpreted call nesting beyond 120 (unbounded recursion of the interpreted code?)')
+        self._live_calls = live + 1
+        try:
+            return self._call_function(fn, args, kwargs, self_val, closure, depth)
+        except RecursionError:
+            raise Undecided('recursion limit of the checker\'s own interpreter')
+        finally:
+            self._live_calls = live
+
+    def _call_function(self, fn: FuncInfo, args: List[Any], kwargs: Dict[str, Any], self_val: Any = None,
+                       closure: Optional[Dict[str, Any]] = None, depth: int = 0) -> Any:
         if depth > self.MAX_DEPTH:
             raise Undecided('call depth')
         if any(isinstance(x, ast.Await) for x in ast.walk(fn.node)):
